@@ -21,4 +21,12 @@ CHECKS = {
         "note": "Trusted: rustc MIR construction on nightly, pin-project-lite, core/alloc/std callees cannot call Sink methods on a sink handed to them.",
         "technique": "typestate dataflow with trace partitioning on rustc MIR (custom rustc_private driver)",
     },
+    "C16": {
+        "text": "Partial, static (waker discipline of dfir_rs::util::unsync::mpsc, all paths of the MIR): every non-propagated Poll::Pending return passes through a "
+                "store of the caller's waker; every successful pop_front is followed by a sender wake and every push_back by a receiver wake on all paths to return; "
+                "close wakes all senders, Sender::drop wakes the receiver; the capacity wake-up wakes every registered sender unless registrations are deduplicated "
+                "(this rule found the stranded-sender defect, repaired by a fix: commit). FIFO order/losslessness of values is NOT decided (VecDeque semantics).",
+        "note": "Trusted: std VecDeque/SmallVec/RefCell, Waker contract; the rules are necessary conditions for 'a waiting side is woken when capacity or data becomes available'.",
+        "technique": "must-pass-through (path) rules + waker-list policy rule on rustc MIR",
+    },
 }
